@@ -78,9 +78,17 @@ def gen_guard(rng, flags):
     if r < 0.75:
         return ["not", ["not", ["f", f]]]
     g = rng.choice(flags)
-    if r < 0.9:
+    if r < 0.82:
         return ["and", ["f", f], ["f", g]]
-    return ["and", ["f", f], ["not", ["f", g]]]
+    if r < 0.9:
+        return ["and", ["f", f], ["not", ["f", g]]]
+    # three or four conjuncts: one n-ary LogicalAnd (what nested if_ blocks produce) or nested binary ones
+    lits = [["f", x] if rng.random() < 0.75 else ["not", ["f", x]] for x in rng.sample(flags, min(len(flags), rng.choice([3, 3, 4])))]
+    if len(lits) < 3:
+        lits.append(["f", f])
+    if rng.random() < 0.7:
+        return ["and"] + lits
+    return ["and", ["and", lits[0], lits[1]]] + lits[2:]
 
 
 def gen_phase(rng):
